@@ -84,9 +84,44 @@ try:
     libs.append("pd")
 except ImportError:
     pass
+def columns_of(tbl, lib):
+    if lib == "np":
+        return {k: np.asarray(v) for k, v in tbl.items()}
+    if lib == "ak":
+        import awkward as ak
+        return {k: np.asarray(ak.to_numpy(tbl[k], allow_missing=False)) for k in tbl.fields}
+    return {k: tbl[k].to_numpy() for k in tbl.columns}
+
+
+def table_vs_published(lib, t_mdc, t_emc):
+    """every column of the handed-out tables (any library) is the published column, same names, same order, nothing missing"""
+    cm, ce = columns_of(t_mdc, lib), columns_of(t_emc, lib)
+    want_m = {k: npz_m[k] for k in npz_m}
+    want_e = {k: npz_e[k] for k in ["gid", "center_x", "center_y", "center_z", "front_center_x", "front_center_y", "front_center_z"]}
+    for i in range(8):
+        for ax in "xyz":
+            want_e[f"points_{ax}_{i}"] = npz_e["points_" + ax][:, i]
+    for name, got, want in (("get_mdc_wire_position", cm, want_m), ("get_emc_crystal_position", ce, want_e)):
+        out["steps"] += 1
+        if name == "get_emc_crystal_position" and list(got) != list(want):
+            out["failures"].append({"history": f"{name}(library={lib!r})", "lookup": "column names", "element": -1, "got": str(list(got))[:300], "published": str(list(want))[:300]})
+            continue
+        for k, v in want.items():
+            out["steps"] += 1
+            if k not in got:
+                out["failures"].append({"history": f"{name}(library={lib!r})", "lookup": f"column {k!r}", "element": -1, "got": "missing", "published": "present"})
+                break
+            a = np.asarray(got[k])
+            if a.shape != v.shape or not np.array_equal(a.astype(np.float64), np.asarray(v).astype(np.float64)):
+                i = int(np.nonzero(a.astype(np.float64) != np.asarray(v).astype(np.float64))[0][0]) if a.shape == v.shape else -1
+                out["failures"].append({"history": f"{name}(library={lib!r})", "lookup": f"column {k!r}", "element": i, "got": float(a[i]) if i >= 0 else str(a.shape), "published": float(v[i]) if i >= 0 else str(v.shape)})
+                break
+
+
 for lib in libs:
     t1 = pybes3.get_mdc_wire_position(library=lib)
     t2 = pybes3.get_emc_crystal_position(library=lib)
+    table_vs_published(lib, t1, t2)
     mutate(t1, lib)
     mutate(t2, lib)
     dt = {"np": "int32", "ak": "uint16", "pd": "int16"}[lib]       # kernels for this dtype are compiled only NOW
@@ -100,7 +135,7 @@ for lib in libs:
         if not np.array_equal(again_m[k], npz_m[k]):
             out["failures"].append({"history": f"get tables ({lib}); modify; get again", "lookup": "get_mdc_wire_position()[%r]" % k, "element": 0, "got": float(again_m[k][0]), "published": float(npz_m[k][0])})
     for ax in "xyz":
-        for p in (0, 5):
+        for p in range(8):
             out["steps"] += 1
             if not np.array_equal(again_e[f"points_{ax}_{p}"], npz_e["points_" + ax][:, p]):
                 out["failures"].append({"history": f"get tables ({lib}); modify; get again", "lookup": f"get_emc_crystal_position()['points_{ax}_{p}']", "element": 0, "got": float(again_e[f'points_{ax}_{p}'][0]), "published": float(npz_e['points_' + ax][0, p])})
